@@ -309,3 +309,25 @@ func verifH_C20_recursive() {
 	verifExerciseKnown([]byte(text), verifChoose("allowExternal", 2) == 1, kv, ki)
 	verifReach("end")
 }
+
+//verif:harness id=C20 tier=quick,thorough witness=end,loaded bounds="server URL texts with odd braces (14 texts: {, }, }{, {}, {a, a}, {a}{, }a{, {{a}}, {a}{a}, https://}r{.example.com, https://{a}.example.com/{b, /{a}/}{, empty) at document / path-item / operation level, with variables {a} declared or not: load, validate, serialise, internalise, serialise again; assertion = no panic"
+func verifH_C20_server_urls() {
+	texts := []string{"{", "}", "}{", "{}", "{a", "a}", "{a}{", "}a{", "{{a}}", "{a}{a}", "https://}r{.example.com", "https://{a}.example.com/{b", "/{a}/}{", ""}
+	srv := `{"url":"` + texts[verifChoose("url", len(texts))] + `"`
+	if verifChoose("vars", 2) == 1 {
+		srv += `,"variables":{"a":{"default":"x"}}`
+	}
+	srv += `}`
+	docServers, itemServers, opServers := "", "", ""
+	switch verifChoose("level", 3) {
+	case 0:
+		docServers = `"servers":[` + srv + `],`
+	case 1:
+		itemServers = `"servers":[` + srv + `],`
+	case 2:
+		opServers = `"servers":[` + srv + `],`
+	}
+	text := `{"openapi":"3.0.0","info":{"title":"t","version":"1"},` + docServers + `"paths":{"/a":{` + itemServers + `"get":{` + opServers + `"responses":{"200":{"description":"d"}}}}}}`
+	verifExercise([]byte(text), false)
+	verifReach("end")
+}
